@@ -344,21 +344,61 @@ impl<T: ?Sized> Clone for Reference<T> {
 ///`rrtk::reference::to_dyn` interchangably.
 #[macro_export]
 macro_rules! to_dyn {
+    ($trait_:path, $was:expr) => {
+        $crate::__to_dyn_impl!($trait_, $was)
+    };
+}
+//The variants that to_dyn can convert depend on RRTK's features, not on the features of the crate
+//calling the macro. `#[cfg]` attributes inside a macro body are evaluated in the calling crate, so
+//instead the whole body is selected here, where `feature` means RRTK's own features.
+#[cfg(feature = "std")]
+#[doc(hidden)]
+#[macro_export]
+macro_rules! __to_dyn_impl {
     ($trait_:path, $was:expr) => {{
-        #[cfg(feature = "alloc")]
         extern crate alloc;
         #[allow(unreachable_patterns)]
         match $was.into_inner() {
             reference::ReferenceUnsafe::Ptr(ptr) => unsafe {
                 Reference::from_ptr(ptr as *mut dyn $trait_)
             },
-            #[cfg(feature = "alloc")]
             reference::ReferenceUnsafe::RcRefCell(rc_ref_cell) => Reference::from_rc_ref_cell(
                 rc_ref_cell as alloc::rc::Rc<core::cell::RefCell<dyn $trait_>>,
             ),
-            #[cfg(feature = "std")]
             reference::ReferenceUnsafe::PtrRwLock(ptr_rw_lock) => unsafe {
                 Reference::from_ptr_rw_lock(ptr_rw_lock as *const std::sync::RwLock<dyn $trait_>)
+            },
+            _ => unimplemented!(),
+        }
+    }};
+}
+#[cfg(all(feature = "alloc", not(feature = "std")))]
+#[doc(hidden)]
+#[macro_export]
+macro_rules! __to_dyn_impl {
+    ($trait_:path, $was:expr) => {{
+        extern crate alloc;
+        #[allow(unreachable_patterns)]
+        match $was.into_inner() {
+            reference::ReferenceUnsafe::Ptr(ptr) => unsafe {
+                Reference::from_ptr(ptr as *mut dyn $trait_)
+            },
+            reference::ReferenceUnsafe::RcRefCell(rc_ref_cell) => Reference::from_rc_ref_cell(
+                rc_ref_cell as alloc::rc::Rc<core::cell::RefCell<dyn $trait_>>,
+            ),
+            _ => unimplemented!(),
+        }
+    }};
+}
+#[cfg(not(feature = "alloc"))]
+#[doc(hidden)]
+#[macro_export]
+macro_rules! __to_dyn_impl {
+    ($trait_:path, $was:expr) => {{
+        #[allow(unreachable_patterns)]
+        match $was.into_inner() {
+            reference::ReferenceUnsafe::Ptr(ptr) => unsafe {
+                Reference::from_ptr(ptr as *mut dyn $trait_)
             },
             _ => unimplemented!(),
         }
